@@ -6,6 +6,8 @@ usage: tools/mutants.py [--dir selftest/mutants] [--checks C01,C03,...] [--scale
 """
 import argparse, glob, json, os, subprocess, sys, time
 
+REPO = os.environ.get("REPO", "/repo")
+ROOT = os.path.dirname(os.path.dirname(os.path.abspath(__file__)))
 ALL = ["C01", "C03", "C08", "C09", "C10", "C11", "C12", "C13", "C14", "C17", "C18", "C19"]
 
 def sh(cmd, **kw):
@@ -13,7 +15,7 @@ def sh(cmd, **kw):
 
 def main():
     ap = argparse.ArgumentParser()
-    ap.add_argument("--dir", default="/verif/selftest/mutants")
+    ap.add_argument("--dir", default=os.path.join(ROOT, "selftest/mutants"))
     ap.add_argument("--checks", default=",".join(ALL))
     ap.add_argument("--scale", default="0.5")
     ap.add_argument("--tests", action="store_true", help="also run corgi's own test suite on the mutant")
@@ -21,18 +23,18 @@ def main():
     ap.add_argument("names", nargs="*")
     a = ap.parse_args()
     checks = [c for c in a.checks.split(",") if c]
-    manifest = json.load(open("/verif/MANIFEST.json"))
+    manifest = json.load(open(os.path.join(ROOT, "MANIFEST.json")))
     claimed = {c["property_id"] for c in manifest["checks"]}
     checks = [c for c in checks if c in claimed]
     diffs = sorted(glob.glob(os.path.join(a.dir, "*.diff")) + glob.glob(os.path.join(a.dir, "*", "patch.diff")))
     if a.names:
         diffs = [d for d in diffs if any(n in d for n in a.names)]
-    assert sh("git -C /repo status --porcelain -- src").stdout.strip() == "", "/repo has uncommitted changes"
+    assert sh(f"git -C {REPO} status --porcelain -- src").stdout.strip() == "", "/repo has uncommitted changes"
     rows = []
     env = dict(os.environ, VERIF_RUNS_SCALE=a.scale)
     for d in diffs:
         name = os.path.basename(os.path.dirname(d)) if d.endswith("patch.diff") else os.path.basename(d)[:-5]
-        r = sh(f"git -C /repo apply {d}")
+        r = sh(f"git -C {REPO} apply {d}")
         if r.returncode != 0:
             rows.append((name, "DOES NOT APPLY", {}))
             print(name, "does not apply:", r.stderr.strip()[:200])
@@ -40,12 +42,12 @@ def main():
         try:
             tests = ""
             if a.tests:
-                t = sh("cd /repo && cargo test --offline 2>&1 | grep -E '^test result' | head -1")
+                t = sh(f"cd {REPO} && cargo test --offline 2>&1 | grep -E '^test result' | head -1")
                 tests = t.stdout.strip()
             res = {}
             for c in checks:
                 t0 = time.time()
-                r = subprocess.run(f"/verif/bin/check {c} quick", shell=True, capture_output=True, text=True, env=env)
+                r = subprocess.run(f"{ROOT}/bin/check {c} quick", shell=True, capture_output=True, text=True, env=env)
                 v = [l for l in r.stdout.splitlines() if l.startswith("VIOLATION")]
                 res[c] = (r.returncode, len(v), round(time.time() - t0, 1))
             caught = [c for c, x in res.items() if x[0] == 1]
@@ -53,8 +55,8 @@ def main():
             rows.append((name, tests, res))
             print(f"{name:55s} caught by {caught or 'NONE'}" + (f"  harness-errors {errs}" if errs else "") + (f"  [{tests}]" if tests else ""), flush=True)
         finally:
-            sh("git -C /repo checkout -- .")
-    sh("rm -f /verif/replays/*.json")
+            sh(f"git -C {REPO} checkout -- .")
+    sh(f"rm -f {ROOT}/replays/*.json")
     if a.out:
         json.dump([{"mutant": n, "tests": t, "results": r} for n, t, r in rows], open(a.out, "w"), indent=1)
 
